@@ -22,6 +22,7 @@ import (
 	"fmt"
 	"go/ast"
 	"go/parser"
+	"go/printer"
 	"go/token"
 	"go/types"
 	"os"
@@ -75,6 +76,15 @@ func ex(e ast.Expr) string {
 		fail(e, "expression with an elided part: %s", s)
 	}
 	return s
+}
+
+// src renders any node as gofmt would, with every run of white space collapsed to one blank.
+func src(n ast.Node) string {
+	var b strings.Builder
+	if err := printer.Fprint(&b, fset, n); err != nil {
+		fail(n, "cannot print node: %v", err)
+	}
+	return strings.Join(strings.Fields(b.String()), " ")
 }
 
 func block(b *ast.BlockStmt) string {
@@ -456,6 +466,86 @@ func retErrBody(b *ast.BlockStmt) bool {
 	return ok && len(r.Results) == 2 && ex(r.Results[0]) == "nil" && ex(r.Results[1]) != "nil"
 }
 
+// ---- trust-bundle source: crypto/spiffe/trustanchors/file.go, classified by exact gofmt text
+
+var taTable = map[string]map[string]string{
+	"(*file).Run": {
+		`if !f.running.CompareAndSwap(false, true) { return errors.New("trust anchors is already running") }`: "cas",
+		`defer close(f.closeCh)`: "deferCloseClosed",
+		`for { _, err := os.Stat(f.path) if err == nil { break } if !errors.Is(err, os.ErrNotExist) { return err } select { case <-ctx.Done(): return fmt.Errorf("failed to find trust anchors file '%s': %w", f.path, ctx.Err()) case <-f.clock.After(f.initFileWatchInterval): f.log.Warnf("Trust anchors file '%s' not found, waiting...", f.path) } }`: "waitFileLoop",
+		`if err := f.updateAnchors(ctx); err != nil { return err }`:                                                               "updateOrRet",
+		`fs, err := fswatcher.New(fswatcher.Options{ Targets: []string{filepath.Dir(f.path)}, Interval: &f.fsWatcherInterval, })`: "newWatcher",
+		`if err != nil { return fmt.Errorf("failed to create file watcher: %w", err) }`:                                           "ifErrRet",
+		`close(f.readyCh)`: "closeReady",
+		`return concurrency.NewRunnerManager( func(ctx context.Context) error { return fs.Run(ctx, f.caEvent) }, func(ctx context.Context) error { for { select { case <-ctx.Done(): return nil case <-f.caEvent: f.log.Info("Trust anchors file changed, reloading trust anchors") if err = f.updateAnchors(ctx); err != nil { return fmt.Errorf("failed to read trust anchors file '%s': %v", f.path, err) } } } }, ).Run(ctx)`: "runWatcherAndReloadLoop",
+	},
+	"(*file).updateAnchors": {
+		`f.lock.Lock()`:                        "lock",
+		`defer f.lock.Unlock()`:                "deferUnlock",
+		`rootPEMs, err := os.ReadFile(f.path)`: "readFile",
+		`if err != nil { return fmt.Errorf("failed to read trust anchors file '%s': %w", f.path, err) }`: "ifErrRet",
+		`trustAnchorCerts, err := pem.DecodePEMCertificates(rootPEMs)`:                                   "decode",
+		`if err != nil { return fmt.Errorf("failed to decode trust anchors: %w", err) }`:                 "ifErrRet",
+		`f.rootPEM = rootPEMs`: "setPem",
+		`f.bundle = x509bundle.FromX509Authorities(spiffeid.TrustDomain{}, trustAnchorCerts)`: "setBundle",
+		`var wg sync.WaitGroup`: "declWg",
+		`defer wg.Wait()`:       "deferWgWait",
+		`wg.Add(len(f.subs))`:   "wgAdd",
+		`for _, ch := range f.subs { go func(chi chan<- struct{}) { defer wg.Done() select { case chi <- struct{}{}: case <-ctx.Done(): } }(ch) }`: "notifySubs",
+		`return nil`: "retNil",
+	},
+	"(*file).GetX509BundleForTrustDomain": {
+		`select { case <-f.closeCh: return nil, errors.New("trust anchors is closed") case <-f.readyCh: }`: "selectClosedOrReady",
+		`f.lock.RLock()`:         "rlock",
+		`defer f.lock.RUnlock()`: "deferRUnlock",
+		`bundle := f.bundle`:     "readBundle",
+		`return bundle, nil`:     "retValue",
+	},
+	"(*file).CurrentTrustAnchors": {
+		`select { case <-ctx.Done(): return nil, ctx.Err() case <-f.closeCh: return nil, errors.New("trust anchors is closed") case <-f.readyCh: }`: "selectCtxClosedOrReady",
+		`f.lock.RLock()`:                          "rlock",
+		`defer f.lock.RUnlock()`:                  "deferRUnlock",
+		`rootPEM := make([]byte, len(f.rootPEM))`: "allocCopy",
+		`copy(rootPEM, f.rootPEM)`:                "readBundle",
+		`return rootPEM, nil`:                     "retValue",
+	},
+	"(*file).Watch": {
+		`f.lock.Lock()`:                 "lock",
+		`sub := make(chan struct{}, 5)`: "makeSub",
+		`f.subs = append(f.subs, sub)`:  "appendSub",
+		`f.lock.Unlock()`:               "unlock",
+		`for { select { case <-ctx.Done(): return case <-f.closeCh: return case <-sub: f.lock.RLock() rootPEM := make([]byte, len(f.rootPEM)) copy(rootPEM, f.rootPEM) f.lock.RUnlock() select { case ch <- rootPEM: case <-ctx.Done(): case <-f.closeCh: } } }`: "watchLoop",
+	},
+}
+
+func taFacts(path string) map[string][]string {
+	funcs := parse(path)
+	out := map[string][]string{}
+	for name := range funcs {
+		if name != "FromFile" && taTable[name] == nil {
+			fail(funcs[name], "file.go declares an unknown function %s", name)
+		}
+	}
+	for name, table := range taTable {
+		fd := need(funcs, name)
+		if recvName(fd) != "f" {
+			fail(fd, "receiver of %s is not named f", name)
+		}
+		for _, st := range fd.Body.List {
+			c := src(st)
+			if strings.HasPrefix(c, "f.log.") {
+				continue
+			}
+			k, ok := table[c]
+			if !ok {
+				fail(st, "%s statement `%s`", name, c)
+			}
+			out[name] = append(out[name], k)
+		}
+	}
+	return out
+}
+
 func parse(path string) map[string]*ast.FuncDecl {
 	f, err := parser.ParseFile(fset, path, nil, 0)
 	if err != nil {
@@ -493,7 +583,17 @@ func recvName(fd *ast.FuncDecl) string {
 func main() {
 	repo := flag.String("repo", "/repo", "repository root")
 	out := flag.String("out", "", "output .lean file")
+	dumpFile := flag.String("dump", "", "debug: print the canonical statements of this file and exit")
 	flag.Parse()
+	if *dumpFile != "" {
+		for n, fd := range parse(*dumpFile) {
+			fmt.Println("== " + n)
+			for _, st := range fd.Body.List {
+				fmt.Println("   " + src(st))
+			}
+		}
+		return
+	}
 	sp := parse(filepath.Join(*repo, "crypto", "spiffe", "spiffe.go"))
 	sv := parse(filepath.Join(*repo, "crypto", "spiffe", "svidsource.go"))
 
@@ -661,6 +761,21 @@ inductive Role where
 		fs[i] = fmt.Sprintf("(%q, .%s)", kv[0], kv[1])
 	}
 	fmt.Fprintf(&b, "/-- The map handed to the single `dir.Write` call. -/\ndef fileSet : List (String × Role) := [%s]\n\n", strings.Join(fs, ", "))
+	ta := taFacts(filepath.Join(*repo, "crypto", "spiffe", "trustanchors", "file.go"))
+	b.WriteString(`/-- Statement kinds of crypto/spiffe/trustanchors/file.go. -/
+inductive TSync where
+  | cas | deferCloseClosed | waitFileLoop | updateOrRet | newWatcher | ifErrRet | closeReady | runWatcherAndReloadLoop
+  | lock | deferUnlock | unlock | readFile | decode | setPem | setBundle | declWg | deferWgWait | wgAdd | notifySubs | retNil
+  | selectClosedOrReady | selectCtxClosedOrReady | rlock | deferRUnlock | allocCopy | readBundle | retValue
+  | makeSub | appendSub | watchLoop
+  deriving DecidableEq, Repr
+
+`)
+	w("taRun", "TSync", ta["(*file).Run"])
+	w("taUpdate", "TSync", ta["(*file).updateAnchors"])
+	w("taGetBundle", "TSync", ta["(*file).GetX509BundleForTrustDomain"])
+	w("taCurrent", "TSync", ta["(*file).CurrentTrustAnchors"])
+	w("taWatch", "TSync", ta["(*file).Watch"])
 	b.WriteString("end Kit.Generated.C19\n")
 	if rg.retryNs == 0 || rg.wakeCap == 0 {
 		fail(rot, "rotation constants not found")
